@@ -536,6 +536,13 @@ var textCorpus = []string{
 	"\x06\x08\x04\x01\x02\x03\x01hello concatenated world",
 	"\x00\x01\x00\x01\x07\x00\x02\x00\x01\x01\x00\x03\x00\x14ABCDEFGHIJKLMNOPQRST\x14\x00\x00\x00",
 	"\xc8\x32\x9b\xfd\x06\x5d\xdf\x72\x36\x39\x04\x1b\x1e\x1b\x65\x0d",
+	// signature shapes for the CMPP signature helpers: leading / trailing, both bracket kinds, nested and unbalanced
+	"[sign]hello [world] bye[tail]",
+	"\u3010\u7b7e\u540d\u3011\u5185\u5bb9\u3010x\u3011\u5185\u5bb9\u3010\u5c3e\u3011",
+	"[[a]]b[c]]",
+	"\u3010\u3010\u3011x\u3010\u3011\u3011",
+	"text[]",
+	"[]text",
 }
 
 func textCutCount() uint64 {
